@@ -98,8 +98,13 @@ def hdr2 : Handler := fun args impl =>
   | [_, w2] => hdr [w2] impl
   | _ => unmodelled
 
+/-- `parsenoise seed`: the implementation parsed a batch of frames (no observable of its own; the registry sweep that
+    follows is what is compared) -/
+def parsenoise : Handler := fun _ impl => { model := impl }
+
 def handlers : List (String × Handler) :=
-  [("find", find), ("findmut", findmut), ("hdr", hdr), ("hdr2", hdr2), ("pack", pack), ("hdrsweep", hdrsweep)]
+  [("find", find), ("findmut", findmut), ("hdr", hdr), ("hdr2", hdr2), ("pack", pack), ("hdrsweep", hdrsweep),
+   ("parsenoise", parsenoise)]
 
 end OFV.Driver.C15
 
